@@ -134,9 +134,16 @@ def st_program(tier2=False, with_mem=True, domains=("sys",), max_sigs=6):
                 return expr(avail, 2)
             return leaf(avail)
 
-        def target(t):
-            k = draw(st.integers(0, 5))
+        def target(t, targets=(), avail=()):
+            k = draw(st.integers(0, 6))
             w = sigs[t]["w"]
+            if k == 6 and len(targets) >= 2:
+                # Array on the left-hand side: the element is chosen by a small unsigned signal, preferably a register
+                # of the same block (its index may be assigned earlier in the very same block)
+                keys = [a for a in list(targets) + list(avail) if not sigs[a]["signed"] and sigs[a]["w"] <= 3]
+                if keys:
+                    n = draw(st.integers(2, 4))
+                    return ["arr", [["s", draw(st.sampled_from(list(targets)))] for _ in range(n)], ["s", draw(st.sampled_from(keys))]]
             if k == 0 and w >= 2:
                 a = draw(st.integers(0, w - 1))
                 b = draw(st.integers(a + 1, w))
@@ -147,12 +154,28 @@ def st_program(tier2=False, with_mem=True, domains=("sys",), max_sigs=6):
                 return ["cat", [["sl", ["s", t], 0, cut], ["sl", ["s", t], cut, w]]]
             return ["s", t]
 
+        def pointer_pattern(targets, avail):
+            keys = [a for a in targets if not sigs[a]["signed"] and sigs[a]["w"] <= 3]
+            if not keys or len(targets) < 2:
+                return None
+            key = draw(st.sampled_from(keys))
+            elems = draw(st.permutations(list(targets)))[:draw(st.integers(2, 4))]
+            return [["eq", ["s", key], expr(avail)],
+                    ["eq", ["arr", [["s", e_] for e_ in elems], ["s", key]], expr(avail)]]
+
         def stmts(targets, avail, depth):
             out = []
             for _ in range(draw(st.integers(1, 3))):
                 k = draw(st.integers(0, 9))
+                if k == 4 and len(targets) >= 2:
+                    # pointer pattern: a register is assigned and, later in the same block, selects the element of an Array
+                    # on the left-hand side (non-blocking semantics: the element is chosen by the OLD value)
+                    pp = pointer_pattern(targets, avail)
+                    if pp:
+                        out.extend(pp)
+                        continue
                 if k <= 4 or depth >= 2:
-                    out.append(["eq", target(draw(st.sampled_from(targets))), expr(avail)])
+                    out.append(["eq", target(draw(st.sampled_from(targets)), targets if len(targets) > 1 else (), avail), expr(avail)])
                 elif k <= 7:
                     elifs = [[cond(avail), stmts(targets, avail, depth + 1)] for _ in range(draw(st.integers(0, 2)))]
                     out.append(["if", cond(avail), stmts(targets, avail, depth + 1), elifs,
@@ -183,7 +206,14 @@ def st_program(tier2=False, with_mem=True, domains=("sys",), max_sigs=6):
             if ts:
                 avail = idx_in + idx_sync + idx_comb
                 for _ in range(draw(st.integers(1, 2))):
-                    body["sync"][d].append(stmts(ts, avail, 0))
+                    blk = stmts(ts, avail, 0)
+                    if draw(st.integers(0, 3)) == 0:
+                        # the pointer pattern at the top level of the block (executed at every edge)
+                        pp = pointer_pattern(ts, avail)
+                        if pp:
+                            pos = draw(st.integers(0, len(blk)))
+                            blk[pos:pos] = pp
+                    body["sync"][d].append(blk)
         mems = []
         if with_mem and draw(st.integers(0, 2)) == 0:
             width = draw(st.sampled_from([4, 8, 12, 16, 5, 9, 10]))
@@ -192,6 +222,7 @@ def st_program(tier2=False, with_mem=True, domains=("sys",), max_sigs=6):
             if gran and width % gran:
                 gran = 0
             ports = []
+            idx_src = idx_in + (idx_sync if not tier2 else [])
             for pn_ in range(draw(st.integers(1, 2))):
                 # at most one write-capable port: two ports writing one word in the same instant is a collision whose
                 # outcome no semantics defines
@@ -205,8 +236,11 @@ def st_program(tier2=False, with_mem=True, domains=("sys",), max_sigs=6):
                     gran_p = gran
                 ports.append({"wr": wr, "mode": mode, "gran": gran_p if wr else 0, "re": draw(st.booleans()),
                               "async": draw(st.integers(0, 3)) == 0, "dom": draw(st.sampled_from(doms)),
-                              "adr": draw(st.sampled_from(idx_in)), "dat": draw(st.sampled_from(idx_in)),
-                              "we": draw(st.sampled_from(idx_in)), "ren": draw(st.sampled_from(idx_in))})
+                              # address / data / enables from inputs or from registers (which change at the same edge)
+                              # (tier 1 only: in tier 2 a register may carry the intermediate-overflow divergence, which the
+                              # evaluator tracks per signal, not per memory word)
+                              "adr": draw(st.sampled_from(idx_src)), "dat": draw(st.sampled_from(idx_src)),
+                              "we": draw(st.sampled_from(idx_src)), "ren": draw(st.sampled_from(idx_in))})
             if len({p_["dom"] for p_ in ports}) > 1:
                 # known finding c01:mem-multiclock-read-first: with ports on different clocks the back end forces every
                 # port to READ_FIRST while the simulated design keeps the requested mode - excluded by construction
